@@ -121,6 +121,10 @@ def check_file(ctx, path, source, variant, text=None, want_stats=None):
         # (a) counts straight from the XML
         if not isinstance(impl, str) and not dc["malformed"]:
             oracle_counts(ctx, impl, dc, rp({"fragment": f["id"]}))
+            # (absolute direction is evaluated on the drawings as bundled and their variants, not on the randomly
+            #  re-drawn stereo marks, which put marks on ends that are not stereogenic)
+            if dc["joins"] == 0 and not variant.startswith("restereo"):
+                oracle_wedge_direction(ctx, f, p.by_frag[f["id"]][1], rp({"fragment": f["id"]}))
     # labels: model tie
     ids = {f["id"]: i for i, f in enumerate(d.frags)}
     if d.labels and d.frags:
@@ -150,6 +154,14 @@ def check_file(ctx, path, source, variant, text=None, want_stats=None):
                 ctx.violation("C13:label-not-resolved-to-group-fragment",
                               f"{source} [{variant}]: label {key!r} is grouped with fragment {lab['sibling']} but resolves to {got}",
                               rp({"label": key, "group_fragment": lab["sibling"], "resolved": got}))
+            # (d') a free label resolves to the nearest fragment above it (brute force over exact rationals)
+            if lab["sibling"] is None and distinct:
+                cand = sorted(d.frags, key=lambda f: L.l1(f["pos"], lab["pos"]))[:5]
+                want = next((f["id"] for f in cand if f["pos"][1] < lab["pos"][1]), "!")
+                if got != want:
+                    ctx.violation("C13:label-not-nearest-fragment-above",
+                                  f"{source} [{variant}]: label {key!r} resolves to {got}; the nearest of the 5 closest fragments that lies above it is {want}",
+                                  rp({"label": key, "resolved": got, "expected": want}))
             # a labelled fragment parses to the same molecule as the fragment itself, named after the label
             if got not in ("!", None) and key in p.by_key:
                 kc = p.by_key[key]
@@ -184,6 +196,28 @@ def max_dev(a, b) -> float:
     import numpy as np
 
     return float(np.nanmax(np.abs(a - b))) if a.shape == b.shape and a.size else float("nan")
+
+
+def oracle_wedge_direction(ctx, f, coords, rp):
+    """the wide end of a wedge bond lies towards the viewer (+z) of its narrow end, of a hashed wedge away from it
+    (fragments without nested fragments: atoms are then in node order)"""
+    nodes = [n for n in f["elt"].findall("n") if n.get("NodeType") != "MultiAttachment"]
+    idx = {n.get("id"): i for i, n in enumerate(nodes)}
+    for b in f["elt"].findall("b"):
+        disp = b.get("Display")
+        if disp not in L.BEGIN_END or b.get("B") not in idx or b.get("E") not in idx:
+            continue
+        narrow, wide = idx[b.get("B")], idx[b.get("E")]
+        if disp.endswith("End"):
+            narrow, wide = wide, narrow
+        dz = float(coords[wide][2] - coords[narrow][2])
+        want = 1 if disp.startswith("Wedge") and not disp.startswith("WedgedHash") else -1
+        ctx.count("wedge-direction:bonds")
+        if dz * want <= 1e-9:
+            ctx.violation("C13:wedge-direction",
+                          f"{rp['source']} [{rp['variant']}] fragment {rp.get('fragment')}: {disp} bond {b.get('B')}->{b.get('E')}: "
+                          f"wide end at dz={dz:+.3f} relative to the narrow end",
+                          dict(rp, bond=[b.get("B"), b.get("E")], display=disp, dz=dz))
 
 
 def oracle_counts(ctx, c, dc, rp):
